@@ -209,8 +209,9 @@ Definition spec_iter (r : raw) (limit : Z) (fuel : nat) : list instant * sterm :
 
 (* ------------------------------------------------------------------ domain of the specification *)
 (* Rules the RFC grammar admits (plus out-of-range members that can simply never match).  Outside
-   this domain (empty BY-lists, BYMONTHDAY 0, time parts outside 0..23 / 0..59, BYSETPOS 0 or
-   beyond +-366, ...) only model and implementation are compared. *)
+   this domain (empty BY-lists, BYMONTH outside 1..12 -- with an nth weekday the code raises
+   ValueError for it --, BYMONTHDAY 0, time parts outside 0..23 / 0..59, BYSETPOS 0 or beyond
+   +-366, ...) only model and implementation are compared. *)
 Definition ne_opt {A : Type} (o : option (list A)) : bool :=
   match o with Some [] => false | _ => true end.
 Definition all_opt (o : option (list Z)) (p : Z -> bool) : bool :=
@@ -225,6 +226,7 @@ Definition spec_wf (r : raw) : bool :=
   ne_opt (r_byeaster r) && ne_opt (r_byweekno r) && ne_opt (r_byweekday r) &&
   ne_opt (r_byhour r) && ne_opt (r_byminute r) && ne_opt (r_bysecond r) &&
   all_opt (r_bysetpos r) (fun p => negb (p =? 0) && between (-366) 366 p) &&
+  all_opt (r_bymonth r) (between 1 12) &&
   all_opt (r_bymonthday r) (fun x => negb (x =? 0)) &&
   match r_byweekday r with None => true | Some l => forallb (fun wn => between 0 6 (fst wn)) l end &&
   all_opt (r_byhour r) (between 0 23) && all_opt (r_byminute r) (between 0 59) &&
